@@ -101,7 +101,8 @@ CHECKS = {
          "DESIGN.md section 5 C12"),
  "C14": ("the documented domain of every decoder is part of its TLA+ verdict operator (Guard/T29/SurvGuard ... in spec/TV_*.tla); every "
          "DF x TC x subtype x length cell with five payload fillings is replayed through every exported callable and tell(), and TLC "
-         "judges each outcome (value of the right shape inside the domain, RuntimeError outside, no other exception)",
+         "judges each outcome (value of the right shape inside the domain, RuntimeError outside, no other exception); the repository's "
+         "own 36 tests are recorded call by call (pytest plugin in /verif) and validated the same way",
          "All 32 DF cells and, for DF17/18, all 32 x 8 TC x subtype cells x 5 (quick: 2) fillings x ~95 callables, plus seeded random frames.",
          "Well-formed = length consistent with DF; 28-hexdigit functions are not judged on 14-digit input; functions documented without a "
          "DF/TC domain are judged for totality only; TC29 reserved subtypes 2-3 may be refused or decoded.",
@@ -109,7 +110,8 @@ CHECKS = {
  "C16": ("TLA+ spec of the Beast/raw/Skysense wire formats with frame positions and the two framing bounds; TLC model-checks a "
          "reference incremental framer over EVERY segmentation of streams with special bytes at every position (state machine "
          "StreamSM: invariant FramingHolds, Complete, action property AppendOnly); the same streams are cut every way into the real "
-         "TcpClient/NetSource and each run is validated step by step by TLC (Trace_Stream)",
+         "TcpClient/NetSource and each run is validated step by step by TLC (Trace_Stream); the whole receive path (framing -> "
+         "NetSource -> Decode, wired together under a virtual clock) is validated against the composed model Trace_Link",
          "Spec level: all segmentations (every chunk size at every position) of 180 (quick) to 1300+ streams. Code level: every single "
          "cut, pairs of cuts (quick: seeded subset), 1-byte pieces, seeded multi-cuts; seeded random streams with 12 % 0x1A density; "
          "NetSource batches.",
@@ -124,8 +126,9 @@ CHECKS = {
          "DESIGN.md section 5 C18"),
  "C17": ("TLA+ state machine of aircraft motion, squitter/reply emission and batch processing (TrackerSM over the pure function "
          "Tracker.Process with exact CPR arithmetic): TLC explores every interleaving/spacing to depth 6-7 from six start places and "
-         "checks Fresh, Gate, Accurate; seeded random histories run through the real Decode.process_raw are validated call by call by "
-         "TLC (Trace_Tracker) against the model and against the property's own predicates with ground truth",
+         "checks Fresh, Gate, Accurate; TLC-simulated behaviours of that machine and seeded random histories are run through the real "
+         "Decode.process_raw and validated call by call by TLC (Trace_Tracker) against the model (whole table incl. callsign, "
+         "velocity, altitude, Comm-B values) and against the property's own predicates with ground truth",
          "Spec: ~0.5M states / 9M transitions per start place (quick: 3 places at depth 6; thorough: 6 at depth 7). Code: 600 (thorough "
          "12 000) histories of 8-30 (80) steps, 2-4 aircraft, every type code, Comm-B incl. unknown addresses, hex case upper/lower/"
          "mixed, chunks spanning 0.5-250 s, long position-less stretches.",
@@ -139,7 +142,8 @@ CHECKS = {
          "Spec: 1.8k (quick) / 30k+ (thorough) modulated buffers. Code: 500 (thorough 12 000) random buffers of 0-3 frames incl. bad-parity "
          "decoys, amplitudes 0.3-1.4, noise peaks from 0 to -10 dB of the weakest pulse.",
          "'10 dB above the noise floor' read as: every noise sample <= amp/3.162; uniform integer noise (x1000), not Gaussian/Rayleigh; "
-         "buffers contain a fully quiet 100-us window; no SDR hardware (object.__new__(RtlReader)).",
+         "buffers contain a fully quiet 100-us window; no SDR hardware (object.__new__(RtlReader)). Where the noise also reaches 0.2 "
+         "absolute (class ten_db_abs) failures are the open finding C19-false-preamble-in-strong-noise (KNOWN-FINDING, narrow signature).",
          "DESIGN.md section 5 C19"),
  "C20": ("relational monitoring: the spec states the relations of the property as TLA+ predicates over integer-projected observations "
          "(ISA within 0.1 % of an mpmath-generated ISO 2533 table, continuity at 11 km, conversion pairs mutually inverse, strict "
